@@ -15,39 +15,42 @@ EXTENDS PongoSet, Json
 TraceLog == ndJsonDeserialize("trace_c20.ndjson")
 
 VARIABLES l,      \* next trace line
-          idmap   \* spec template id -> identity observed in the implementation
+          idmap,  \* spec template id -> identity observed in the implementation
+          needObs, \* thread -> a load was made inside the critical section: its outcome (CacheStore / CacheMissFail) must be logged before the unlock
+          needRet  \* thread -> FromCache left its critical section: its return (Ret) must be logged before the thread's next call
 
 TrThreads == {"t1","t2","t3","t4","t5","t6","t7","t8","t9","t10","t11","t12","t13","t14","t15","t16"}
 TrSets == {"s1", "s2"}
 TrNames == {"a", "b"}
 
-tvars == <<vars, l, idmap>>
+tvars == <<vars, l, idmap, needObs, needRet>>
 
 ev == TraceLog[l]
 IsEvent(e) == l <= Len(TraceLog) /\ TraceLog[l].ev = e /\ l' = l + 1
 Stutter == UNCHANGED vars
 Fresh(id) == \A i \in 1..Len(idmap) : idmap[i] # id
 
-TraceInit == Init /\ file = [n \in Names |-> 0] /\ l = 1 /\ idmap = <<>>
+NoNeed == [t \in TrThreads |-> FALSE]
+TraceInit == Init /\ file = [n \in Names |-> 0] /\ l = 1 /\ idmap = <<>> /\ needObs = NoNeed /\ needRet = NoNeed
 
-TrReset == IsEvent("Reset") /\ Reset([n \in Names |-> ev.init[n]]) /\ idmap' = <<>>
+TrReset == IsEvent("Reset") /\ Reset([n \in Names |-> ev.init[n]]) /\ idmap' = <<>> /\ needObs' = NoNeed /\ needRet' = NoNeed
 
 TrCall ==
   /\ IsEvent("Call")
-  /\ pc[ev.th] = "idle"
+  /\ pc[ev.th] = "idle" /\ ~needRet[ev.th]
   /\ IF debug[ev.set] THEN Stutter ELSE FcBegin(ev.th, ev.set, ev.name)
-  /\ UNCHANGED idmap
+  /\ UNCHANGED <<idmap, needObs, needRet>>
 
 TrCallClean ==
-  /\ IsEvent("CallClean")
+  /\ IsEvent("CallClean") /\ ~needRet[ev.th]
   /\ CcBegin(ev.th, ev.set, IF ev.all = 1 THEN CHOOSE n \in Names : TRUE ELSE ev.name, ev.all = 1, FALSE)
-  /\ UNCHANGED idmap
+  /\ UNCHANGED <<idmap, needObs, needRet>>
 
 TrLock ==
   /\ IsEvent("CacheLock")
   /\ IF ev.all = 1 THEN CcLock(ev.th) ELSE FcLock(ev.th)
   /\ cur[ev.th].s = ev.set
-  /\ UNCHANGED idmap
+  /\ UNCHANGED <<idmap, needObs, needRet>>
 
 \* a loader read: inside the critical section it is the miss branch of FcCrit; outside, it is the
 \* Debug bypass.  A read while the entry is cached matches neither (CompileOnce).
@@ -60,6 +63,8 @@ TrGet ==
             /\ FcCrit(ev.th)
        ELSE /\ pc[ev.th] = "idle" /\ debug[ev.set]
             /\ FcBegin(ev.th, ev.set, ev.name)
+  /\ needObs' = IF pc[ev.th] = "fccrit" THEN [needObs EXCEPT ![ev.th] = TRUE] ELSE needObs
+  /\ UNCHANGED needRet
   /\ IF ev.ver # 0
        THEN /\ Fresh(ev.id) /\ ev.id # 0
             /\ idmap' = Append(idmap, ev.id)
@@ -71,44 +76,46 @@ TrHit ==
   /\ cache[ev.set][ev.name] # 0
   /\ idmap[cache[ev.set][ev.name]] = ev.id
   /\ FcCrit(ev.th)
-  /\ UNCHANGED idmap
+  /\ UNCHANGED <<idmap, needObs, needRet>>
 
 TrStore ==
   /\ IsEvent("CacheStore")
   /\ pc[ev.th] = "fcunlock" /\ cur[ev.th].s = ev.set /\ cur[ev.th].n = ev.name
   /\ cur[ev.th].res # 0 /\ idmap[cur[ev.th].res] = ev.id
   /\ cache[ev.set][ev.name] = cur[ev.th].res
-  /\ Stutter /\ UNCHANGED idmap
+  /\ Stutter /\ UNCHANGED <<idmap, needRet>> /\ needObs' = [needObs EXCEPT ![ev.th] = FALSE]
 
 TrMissFail ==
   /\ IsEvent("CacheMissFail")
   /\ pc[ev.th] = "fcunlock" /\ cur[ev.th].s = ev.set /\ cur[ev.th].n = ev.name
   /\ cur[ev.th].res = 0
-  /\ Stutter /\ UNCHANGED idmap
+  /\ Stutter /\ UNCHANGED <<idmap, needRet>> /\ needObs' = [needObs EXCEPT ![ev.th] = FALSE]
 
 TrBypass ==
   /\ IsEvent("CacheBypass")
   /\ pc[ev.th] = "idle" /\ debug[ev.set]
-  /\ Stutter /\ UNCHANGED idmap
+  /\ Stutter /\ UNCHANGED <<idmap, needObs, needRet>>
 
 TrCleanCall ==
   /\ IsEvent("CacheCleanCall")
   /\ pc[ev.th] = "cccrit" /\ cur[ev.th].s = ev.set
   /\ cur[ev.th].all = (ev.all = 1)
   /\ IF ev.all = 1 THEN CcCrit(ev.th) ELSE Stutter
-  /\ UNCHANGED idmap
+  /\ UNCHANGED <<idmap, needObs, needRet>>
 
 TrClean ==
   /\ IsEvent("CacheClean")
   /\ cur[ev.th].s = ev.set /\ cur[ev.th].n = ev.name /\ ~cur[ev.th].all
   /\ CcCrit(ev.th)
-  /\ UNCHANGED idmap
+  /\ UNCHANGED <<idmap, needObs, needRet>>
 
 TrUnlock ==
   /\ IsEvent("CacheUnlock")
   /\ cur[ev.th].s = ev.set
   /\ IF ev.all = 1 THEN CcUnlock(ev.th) ELSE FcUnlock(ev.th)
-  /\ UNCHANGED idmap
+  /\ ~needObs[ev.th]
+  /\ needRet' = IF ev.all = 1 THEN needRet ELSE [needRet EXCEPT ![ev.th] = TRUE]
+  /\ UNCHANGED <<idmap, needObs>>
 
 \* the value handed back to the caller is the one fixed at the call's linearization point
 LastOf(t) == LET I == {i \in 1..Len(hist) : hist[i].t = t} IN
@@ -120,17 +127,17 @@ TrRet ==
        /\ h.op = "FromCache" /\ h.s = ev.set /\ h.n = ev.name
        /\ (ev.id = 0) <=> (h.res = 0)
        /\ h.res # 0 => (idmap[h.res] = ev.id /\ h.ver = ev.ver)
-  /\ Stutter /\ UNCHANGED idmap
+  /\ Stutter /\ UNCHANGED <<idmap, needObs>> /\ needRet' = [needRet EXCEPT ![ev.th] = FALSE]
 
 TrSetDebug ==
   /\ IsEvent("SetDebug")
   /\ SetDebug(ev.set, ev.all = 1)
-  /\ UNCHANGED idmap
+  /\ UNCHANGED <<idmap, needObs, needRet>>
 
 TrChangeFile ==
   /\ IsEvent("ChangeFile")
   /\ IF file[ev.name] = ev.ver THEN Stutter ELSE ChangeFile(ev.name, ev.ver)
-  /\ UNCHANGED idmap
+  /\ UNCHANGED <<idmap, needObs, needRet>>
 
 TraceNext ==
   \/ TrReset \/ TrCall \/ TrCallClean \/ TrLock \/ TrGet \/ TrHit \/ TrStore \/ TrMissFail
